@@ -3,6 +3,7 @@ package main
 import (
 	"fmt"
 	"go/token"
+	"go/types"
 	"os"
 	"strings"
 
@@ -60,11 +61,15 @@ func gErrNil(name string, cs CallSpec) Guard {
 		if cd.Kind != CondNotNil {
 			return false, false
 		}
-		if !matchCallValue(cd.Base, cs, -2) {
+		if !isErrorType(cd.Base.Type()) || !matchCallValue(cd.Base, cs, -2) {
 			return false, false
 		}
 		return true, cd.Neg
 	}}
+}
+
+func isErrorType(t types.Type) bool {
+	return types.Identical(t, types.Universe.Lookup("error").Type())
 }
 
 // matchCallValue: v is the result (tuple element idx; -1 single result; -2 any) of a call
@@ -379,4 +384,88 @@ func gEnclosingBypass(name string, cs CallSpec) Guard {
 		}
 		return false, false
 	}}
+}
+
+// avoidsCut reports whether some path from just after `from` (or from the function entry when
+// from is nil) reaches `to` without executing an instruction for which cut holds. Returns the
+// witness path of blocks.
+func (c *Ctx) avoidsCut(fn *ssa.Function, from ssa.Instruction, to ssa.Instruction, cut func(ssa.Instruction) bool) (bool, []string) {
+	prev := map[*ssa.BasicBlock]*ssa.BasicBlock{}
+	seen := map[*ssa.BasicBlock]bool{}
+	type item struct {
+		b     *ssa.BasicBlock
+		start int
+	}
+	var queue []item
+	if from == nil {
+		queue = append(queue, item{fn.Blocks[0], 0})
+		seen[fn.Blocks[0]] = true
+		prev[fn.Blocks[0]] = nil
+	} else {
+		b := from.Block()
+		for i, in := range b.Instrs {
+			if in == from {
+				queue = append(queue, item{b, i + 1})
+			}
+		}
+		prev[b] = nil
+	}
+	for len(queue) > 0 {
+		it := queue[0]
+		queue = queue[1:]
+		blockedHere := false
+		for i := it.start; i < len(it.b.Instrs); i++ {
+			in := it.b.Instrs[i]
+			if in == to {
+				return true, c.blockPath(prev, it.b)
+			}
+			if cut(in) {
+				blockedHere = true
+				break
+			}
+		}
+		if blockedHere {
+			continue
+		}
+		for _, s := range it.b.Succs {
+			if !seen[s] {
+				seen[s] = true
+				if _, ok := prev[s]; !ok {
+					prev[s] = it.b
+				}
+				queue = append(queue, item{s, 0})
+			}
+		}
+	}
+	return false, nil
+}
+
+// errorReturns lists returns whose error result (index idx) is not the nil constant.
+func errorReturns(fn *ssa.Function, idx int) []*ssa.Return {
+	var out []*ssa.Return
+	for _, b := range fn.Blocks {
+		if len(b.Instrs) == 0 {
+			continue
+		}
+		if ret, ok := b.Instrs[len(b.Instrs)-1].(*ssa.Return); ok && idx < len(ret.Results) {
+			if !isNilConst(ret.Results[idx]) {
+				out = append(out, ret)
+			}
+		}
+	}
+	return out
+}
+
+// storesFieldConst: in is `x.field = <bool const val>`.
+func storesFieldBool(in ssa.Instruction, f *typesVar, val bool) bool {
+	st, ok := in.(*ssa.Store)
+	if !ok {
+		return false
+	}
+	fa, ok := st.Addr.(*ssa.FieldAddr)
+	if !ok || fieldOfAddr(fa) != f {
+		return false
+	}
+	bv, isC := boolConst(st.Val)
+	return isC && bv == val
 }
